@@ -21,6 +21,7 @@ class LCBOptimizer:
         self.index = {o: i for i, o in enumerate(self.options)}
         self.nopt = len(self.options)
         self.counts = [0] * self.nopt
+        self.asked = [0] * self.nopt
         self.values = [float("inf")] * self.nopt
         self.total = 0
         self.exploration = exploration
@@ -29,11 +30,19 @@ class LCBOptimizer:
 
     def ask(self):
         """Suggest an option based on the lower confidence bound."""
+        # need to gather initial samples: n.b. count the requests, not the
+        # reports - failed trials are never reported back, and an option
+        # whose trials fail would otherwise be suggested forever
+        for i, option in enumerate(self.options):
+            if self.asked[i] < 1:
+                self.asked[i] += 1
+                return option
+
         best_option = best_lcb = None
         for option, ci, vi in zip(self.options, self.counts, self.values):
             if ci < 1:
-                # need to gather initial samples
-                return option
+                # nothing (yet) reported for this option -> nothing known
+                continue
 
             # modify lcb to include exploration term
             lcb = (
@@ -47,6 +56,12 @@ class LCBOptimizer:
             if best_lcb is None or lcb < best_lcb:
                 best_lcb = lcb
                 best_option = option
+
+        if best_option is None:
+            # no option has reported anything yet -> keep cycling
+            i = min(range(self.nopt), key=self.asked.__getitem__)
+            self.asked[i] += 1
+            best_option = self.options[i]
 
         return best_option
 
